@@ -81,6 +81,11 @@ func mc(name, module, cfg string, timeout time.Duration) legCfg {
 	return legCfg{Kind: "mc", Name: name, Module: module, Cfg: cfg, Timeout: timeout, TLCWorkers: 12, Workers: 8}
 }
 
+// mix: the clause-combining generator (internal/h gen.go MixQuery) as an extra trace leg
+func mix(n, files int) legCfg {
+	return legCfg{Kind: "trace", Name: "mix", Module: "EngineTrace", TraceN: n, TraceFiles: files, Timeout: 15 * time.Minute, WorkerArgs: []string{"-gen", "MIX"}}
+}
+
 func tr(name, module string, n, files int) legCfg {
 	return legCfg{Kind: "trace", Name: name, Module: module, TraceN: n, TraceFiles: files, Timeout: 10 * time.Minute}
 }
@@ -97,29 +102,29 @@ var props = map[string]*propCfg{
 		ID: "C05", Level: "model_checking", Exhaustive: true,
 		Rule:        "TLC enumerates (a) every table of <= MaxRows rows over a numeric, a string and a nullable column x every key list (1 key incl. the nullable one, 2 keys, all ASC/DESC mixes, also on an aliased output column) x three windows, and (b) every table of <= MaxWin position-identified rows x {no order, ASC, DESC} x every (limit, offset) pair from {0,1,2,3,5} x {absent,0,1,2,4,6} in both LIMIT spellings. Each case is replayed: the key-tuple sequence must equal the specification's, the rows must be a permutation, and a windowed result must be exactly the window of the engine's own ordered sequence. Leg T: seeded random tables (0-10 rows, 4 columns), 1-3 keys, limits/offsets 0-11, validated event by event (OrderOK, window). Non-trivial: sorting changes the sequence or the window cuts it; distinct = distinct (table, query) pairs.",
 		Assumptions: baseAssumptions,
-		Quick:       []legCfg{mc("order", "MC_C05", "C05_quick.cfg", 10*time.Minute), tr("order", "EngineTrace", 300, 4)},
-		Thorough:    []legCfg{mc("order", "MC_C05", "C05_thorough.cfg", 40*time.Minute), tr("order", "EngineTrace", 2000, 12)},
+		Quick:       []legCfg{mc("order", "MC_C05", "C05_quick.cfg", 10*time.Minute), tr("order", "EngineTrace", 300, 4), mix(200, 3)},
+		Thorough:    []legCfg{mc("order", "MC_C05", "C05_thorough.cfg", 40*time.Minute), tr("order", "EngineTrace", 2000, 12), mix(1500, 12)},
 	},
 	"C02": {
 		ID: "C02", Level: "model_checking", Exhaustive: true,
 		Rule:        "TLC enumerates (a) one aliased expression per case from the grammar: 10 atoms (columns a, b, nested n.p, a missing key, constants 0 1 2 3 -1 1/2), every binary operator (+ - * / DIV % & | ^ << >>) and unary operator (- ~ !) over all atom pairs, depth-2 trees over a core set, CASE WHEN with 1-2 arms with/without ELSE, on every 1-row (thorough: also 2-row) table drawn from 5 rows incl. a NULL operand, keeping only inputs whose meaning the statement fixes (no division by zero etc.); (b) every select list of 1-3 items from 9 items (star, bare / aliased columns, nested path, missing key, expressions, a literal, clashing names) x every table of <= MaxRows rows x {no WHERE, WHERE}. Each case is replayed and the exact row sequence (key sets and values) compared. Leg T: seeded random tables (0-6 rows) x select lists of 1-4 items with trees to depth 5. Non-trivial: at least one output row and not a lone bare column / literal; distinct = distinct (table, query) pairs.",
 		Assumptions: append([]string{"numbers are compared exactly when the expected value is dyadic, otherwise within 1e-12 relative (IEEE rounding of the engine's float64 arithmetic against the specification's exact rationals)"}, baseAssumptions...),
-		Quick:       []legCfg{mc("proj", "MC_C02", "C02_quick.cfg", 10*time.Minute), tr("proj", "EngineTrace", 300, 4)},
-		Thorough:    []legCfg{mc("proj", "MC_C02", "C02_thorough.cfg", 40*time.Minute), tr("proj", "EngineTrace", 2000, 12)},
+		Quick:       []legCfg{mc("proj", "MC_C02", "C02_quick.cfg", 10*time.Minute), tr("proj", "EngineTrace", 300, 4), mix(200, 3)},
+		Thorough:    []legCfg{mc("proj", "MC_C02", "C02_thorough.cfg", 40*time.Minute), tr("proj", "EngineTrace", 2000, 12), mix(1500, 12)},
 	},
 	"C03": {
 		ID: "C03", Level: "model_checking", Exhaustive: true,
 		Rule:        "TLC enumerates every table of <= MaxRows rows drawn from a pool of rows with two plain grouping columns, a grouping column holding NULL and values of different kinds with equal %v text, a numeric column and a numeric column with NULLs x 5 grouping column sets x 7 select lists (COUNT(*), SUM on two columns, MIN/MAX, AVG/COUNT(col), aggregates only, star, aggregates before columns) x 5 WHERE/HAVING combinations, plus the no-GROUP-BY family: 4 all-aggregate select lists x 5 WHERE predicates incl. one no row passes. Each case is replayed several times in fresh queries and the exact output sequence compared. Leg T: seeded random tables (0-10 rows) x 1-3 grouping columns x 1-4 aggregates x WHERE/HAVING. Non-trivial: >= 2 groups (grouped) or a WHERE that keeps some but not all rows (whole-table); distinct = distinct (table, query) pairs.",
 		Assumptions: baseAssumptions,
-		Quick:       []legCfg{mc("group", "MC_C03", "C03_quick.cfg", 10*time.Minute), tr("group", "EngineTrace", 300, 4)},
-		Thorough:    []legCfg{mc("group", "MC_C03", "C03_thorough.cfg", 60*time.Minute), tr("group", "EngineTrace", 2000, 12)},
+		Quick:       []legCfg{mc("group", "MC_C03", "C03_quick.cfg", 10*time.Minute), tr("group", "EngineTrace", 300, 4), mix(200, 3)},
+		Thorough:    []legCfg{mc("group", "MC_C03", "C03_thorough.cfg", 60*time.Minute), tr("group", "EngineTrace", 2000, 12), mix(1500, 12)},
 	},
 	"C06": {
 		ID: "C06", Level: "model_checking", Exhaustive: true,
 		Rule:        "TLC enumerates (a) SELECT DISTINCT over every table of <= MaxRows rows from a pool of 7 rows whose textual fingerprints coincide although the rows differ ({a:'x b:y'} / {a:'x',b:'y'}, 1 / '1', missing / NULL) x 4 select lists x 3 windows; (b) two-branch unions over every pair of tables of <= MaxBranch rows x {UNION, UNION ALL} x 4 windows x {plain, filtered right branch}; (c) three-branch chains over every triple of tables x all four UNION / UNION ALL mixes x 2 windows. Each case is replayed and the exact row sequence compared. Leg T: seeded random 1-4 branch chains over tables of 0-6 rows, DISTINCT branches, LIMIT/OFFSET. Non-trivial: the un-deduplicated result contains a duplicate row; distinct = distinct (document, query) pairs.",
 		Assumptions: baseAssumptions,
-		Quick:       []legCfg{mc("distinct", "MC_C06", "C06_quick.cfg", 10*time.Minute), tr("distinct", "EngineTrace", 300, 4)},
-		Thorough:    []legCfg{mc("distinct", "MC_C06", "C06_thorough.cfg", 40*time.Minute), tr("distinct", "EngineTrace", 2000, 12)},
+		Quick:       []legCfg{mc("distinct", "MC_C06", "C06_quick.cfg", 10*time.Minute), tr("distinct", "EngineTrace", 300, 4), mix(200, 3)},
+		Thorough:    []legCfg{mc("distinct", "MC_C06", "C06_thorough.cfg", 40*time.Minute), tr("distinct", "EngineTrace", 2000, 12), mix(1500, 12)},
 	},
 	"C15": {
 		ID: "C15", Level: "model_checking", Exhaustive: true,
@@ -153,8 +158,8 @@ var props = map[string]*propCfg{
 		ID: "C07", Level: "model_checking", Exhaustive: true,
 		Rule:        "TLC enumerates documents (t: <= MaxRows rows with a numeric, a grouping column and a nested array of <= MaxNest objects; u: 0-2 rows) x query families: 7 inner queries (star, filter, GROUP BY with aggregates, ORDER BY + LIMIT, DISTINCT, computed column, empty) x 7 outer queries over the CTE; the same inners as aliased derived tables x 6 alias-qualified outers; CTE chains c -> d -> outer; a CTE referenced twice (source and <- IN subquery); a CTE read through a path selector c[0].n; 10 subquery shapes (select-list subquery plain / filtered / aggregate / rooted at <- / correlated through <-, IN subquery, EXISTS with and without an outer-column reference, NOT EXISTS, EXISTS AND ...). The invariant ComposedIsStaged compares RunQ with explicit materialise-then-run on the specification. Each case is replayed three ways: composed (= exported result), staged with the real engine (every CTE / derived table executed alone, result deep-copied into a plain document, outer query run over it), and select-list subqueries standalone on each kept row. Non-trivial: non-empty result; distinct = distinct (document, query).",
 		Assumptions: baseAssumptions,
-		Quick:       []legCfg{mc("compose", "MC_C07", "C07_quick.cfg", 10*time.Minute), tr("compose", "EngineTrace", 250, 4)},
-		Thorough:    []legCfg{mc("compose", "MC_C07", "C07_thorough.cfg", 40*time.Minute), tr("compose", "EngineTrace", 1500, 12)},
+		Quick:       []legCfg{mc("compose", "MC_C07", "C07_quick.cfg", 10*time.Minute), tr("compose", "EngineTrace", 250, 4), mix(200, 3)},
+		Thorough:    []legCfg{mc("compose", "MC_C07", "C07_thorough.cfg", 40*time.Minute), tr("compose", "EngineTrace", 1500, 12), mix(1500, 12)},
 	},
 	"C08": {
 		ID: "C08", Level: "model_checking", Exhaustive: true,
@@ -205,7 +210,7 @@ var props = map[string]*propCfg{
 	},
 	"C14": {
 		ID: "C14", Level: "model_checking", Exhaustive: true,
-		Rule:        "TLC explores every interleaving of the main goroutine (one step per row) with the start / finish steps of every ASYNC, SPINASYNC and SPIN call for seven configurations (col+async on 3 rows; async+spinasync+sync, once+async+spin, async+col+async, a NULL-returning ONCE + async on 2 rows; spinasync+col and col+async inside a nested query whose wait group is chained to the outer one - replayed as a derived table and as a CTE body), checking at Return that every ASYNC / SPINASYNC call was invoked exactly once and completed, that values sit in their columns, that SPIN / SPINASYNC add no column and that ONCE ran once - and termination under fairness; two deviation configurations (wait group incremented inside the goroutine; outer query not chained to the nested wait group) must violate AllCompleted. Every terminal behaviour is exported as a schedule and forced onto the real engine with gates inside the harness's own functions (the main goroutine is gated by an unqualified mark(a) placed first in the select list): Exec returning while a gated ASYNC / SPINASYNC call is still held is a violation, as are wrong invocation counts, rows or columns. Leg T: free-running goroutines with zero / skewed / random latencies on 2-6 rows, events recorded with a sequence number under one lock and validated against AsyncTrace (a 'ret' event is only enabled once the wait group has drained). Immediate functions under ASYNC / SPIN / SPINASYNC must be rejected. Non-trivial: every schedule; distinct = distinct schedules.",
+		Rule:        "TLC explores every interleaving of the main goroutine (one step per row) with the start / finish steps of every ASYNC, SPINASYNC and SPIN call for seven configurations (col+async on 3 rows; async+spinasync+sync, once+async+spin, async+col+async, a NULL-returning ONCE + async on 2 rows; spinasync+col and col+async inside a nested query whose wait group is chained to the outer one - replayed as a derived table, as a CTE body and as a derived table on the left and on the right side of a join; async+failing call+spinasync on 3 rows and spinasync+async+failing call on 2 rows, where an unqualified call fails the query at row 2; async+spinasync+once on 2 rows with an empty window, replayed as LIMIT 0 and as an OFFSET past the last row), checking at Return that every ASYNC / SPINASYNC call was invoked exactly once and completed, that values sit in their columns, that SPIN / SPINASYNC add no column and that ONCE ran once - and termination under fairness; after a failing row that every call the query got to has completed and none ran twice; four deviation configurations (wait group incremented inside the goroutine; outer query not chained to the nested wait group; a failed Exec returning without waiting; an Exec with an empty window returning without waiting) must violate AllCompleted. Every terminal behaviour is exported as a schedule and forced onto the real engine with gates inside the harness's own functions (the main goroutine is gated by an unqualified mark(a) placed first in the select list): Exec returning while a gated ASYNC / SPINASYNC call is still held is a violation, as are wrong invocation counts, rows or columns. Leg T: free-running goroutines with zero / skewed / random latencies on 2-6 rows, events recorded with a sequence number under one lock and validated against AsyncTrace (a 'ret' event is only enabled once the wait group has drained). Immediate functions under ASYNC / SPIN / SPINASYNC must be rejected: Registry.tla enumerates every history of <= 4 (thorough 6) registrations of two names as ordinary / immediate functions (ImmediateRejects, OrdinaryRuns, LatestWins; toggling on re-registration must violate ImmediateRejects) and each history is replayed on the process-wide registry, asking the engine after every registration (rejected without running the function / accepted with the unqualified call's value); the built-in immediate functions are driven directly. Non-trivial: every schedule and history; distinct = distinct schedules.",
 		Assumptions: append([]string{"gates synchronise the goroutines, so forced schedules expose logical outcomes only; memory races are the race detector's job (C13)"}, baseAssumptions...),
 		CaseTimeout: 60 * time.Second,
 		Quick: []legCfg{
@@ -215,9 +220,15 @@ var props = map[string]*propCfg{
 			{Kind: "mc", Name: "e", Module: "MC_C14", Cfg: "C14_e.cfg", Timeout: 10 * time.Minute, TLCWorkers: 4, Workers: 4},
 			{Kind: "mc", Name: "f", Module: "MC_C14", Cfg: "C14_f.cfg", Timeout: 10 * time.Minute, TLCWorkers: 4, Workers: 4},
 			{Kind: "mc", Name: "g", Module: "MC_C14", Cfg: "C14_g.cfg", Timeout: 10 * time.Minute, TLCWorkers: 4, Workers: 4},
+			{Kind: "mc", Name: "h", Module: "MC_C14", Cfg: "C14_h.cfg", Timeout: 10 * time.Minute, TLCWorkers: 4, Workers: 8},
+			{Kind: "mc", Name: "dev-nowait", Module: "MC_C14", Cfg: "C14_dev_nowait.cfg", Timeout: 5 * time.Minute, TLCWorkers: 1, NoExport: true, Expect: "AllCompleted"},
+			{Kind: "mc", Name: "j", Module: "MC_C14", Cfg: "C14_j.cfg", Timeout: 10 * time.Minute, TLCWorkers: 4, Workers: 8},
+			{Kind: "mc", Name: "dev-empty", Module: "MC_C14", Cfg: "C14_dev_empty.cfg", Timeout: 5 * time.Minute, TLCWorkers: 1, NoExport: true, Expect: "AllCompleted"},
 			{Kind: "mc", Name: "dev-nochain", Module: "MC_C14", Cfg: "C14_dev_nochain.cfg", Timeout: 5 * time.Minute, TLCWorkers: 1, NoExport: true, Expect: "AllCompleted"},
+			{Kind: "mc", Name: "registry", Module: "Registry", Cfg: "Registry_quick.cfg", Timeout: 5 * time.Minute, TLCWorkers: 4, Workers: 4},
+			{Kind: "mc", Name: "registry-dev", Module: "Registry", Cfg: "Registry_dev.cfg", Timeout: 5 * time.Minute, TLCWorkers: 1, NoExport: true, Expect: "ImmediateRejects"},
 			{Kind: "exec", Name: "immediate", Mode: "immediate", Timeout: 2 * time.Minute},
-			{Kind: "trace", Name: "latency", Module: "AsyncTrace", TraceN: 150, TraceFiles: 5, Timeout: 10 * time.Minute, CallEv: "begin"},
+			{Kind: "trace", Name: "latency", Module: "AsyncTrace", TraceN: 120, TraceFiles: 7, Timeout: 10 * time.Minute, CallEv: "begin"},
 		},
 		Thorough: []legCfg{
 			{Kind: "mc", Name: "dev", Module: "MC_C14", Cfg: "C14_dev.cfg", Timeout: 5 * time.Minute, TLCWorkers: 1, NoExport: true, Expect: "AllCompleted"},
@@ -228,7 +239,14 @@ var props = map[string]*propCfg{
 			{Kind: "mc", Name: "e", Module: "MC_C14", Cfg: "C14_e.cfg", Timeout: 10 * time.Minute, TLCWorkers: 4, Workers: 4},
 			{Kind: "mc", Name: "f", Module: "MC_C14", Cfg: "C14_f.cfg", Timeout: 10 * time.Minute, TLCWorkers: 4, Workers: 4},
 			{Kind: "mc", Name: "g", Module: "MC_C14", Cfg: "C14_g.cfg", Timeout: 10 * time.Minute, TLCWorkers: 4, Workers: 4},
+			{Kind: "mc", Name: "h", Module: "MC_C14", Cfg: "C14_h.cfg", Timeout: 10 * time.Minute, TLCWorkers: 4, Workers: 8},
+			{Kind: "mc", Name: "i", Module: "MC_C14", Cfg: "C14_i.cfg", Timeout: 20 * time.Minute, TLCWorkers: 4, Workers: 8},
+			{Kind: "mc", Name: "dev-nowait", Module: "MC_C14", Cfg: "C14_dev_nowait.cfg", Timeout: 5 * time.Minute, TLCWorkers: 1, NoExport: true, Expect: "AllCompleted"},
+			{Kind: "mc", Name: "j", Module: "MC_C14", Cfg: "C14_j.cfg", Timeout: 10 * time.Minute, TLCWorkers: 4, Workers: 8},
+			{Kind: "mc", Name: "dev-empty", Module: "MC_C14", Cfg: "C14_dev_empty.cfg", Timeout: 5 * time.Minute, TLCWorkers: 1, NoExport: true, Expect: "AllCompleted"},
 			{Kind: "mc", Name: "dev-nochain", Module: "MC_C14", Cfg: "C14_dev_nochain.cfg", Timeout: 5 * time.Minute, TLCWorkers: 1, NoExport: true, Expect: "AllCompleted"},
+			{Kind: "mc", Name: "registry", Module: "Registry", Cfg: "Registry_thorough.cfg", Timeout: 10 * time.Minute, TLCWorkers: 4, Workers: 4},
+			{Kind: "mc", Name: "registry-dev", Module: "Registry", Cfg: "Registry_dev.cfg", Timeout: 5 * time.Minute, TLCWorkers: 1, NoExport: true, Expect: "ImmediateRejects"},
 			{Kind: "exec", Name: "immediate", Mode: "immediate", Timeout: 2 * time.Minute},
 			{Kind: "trace", Name: "latency", Module: "AsyncTrace", TraceN: 600, TraceFiles: 15, Timeout: 20 * time.Minute, CallEv: "begin"},
 		},
